@@ -360,3 +360,41 @@ from ..astq import single_defs as _single_defs, expand  # noqa: E402,F401
 
 def xstr(func, node, keep=()):
     return astq.estr(expand(func, node, keep))
+
+
+def call_result_edges(func, cfg, call):
+    """(block reached when the boolean result of `call` is true, block reached when it is false): the call is the branch
+    condition itself, or its result is held in a local whose only non-constant definition is this call (`ok = f(..)` inside a
+    try, `if (!ok)` after it) and that local is the branch condition. (None, None) when the result is not branched on."""
+    succ = fail = None
+    for (a, s_, c, t) in cfg.cond_edges():
+        if c == call["id"]:
+            if t:
+                succ = s_
+            else:
+                fail = s_
+    if succ is not None and fail is not None:
+        return succ, fail
+    holder = None
+    for n in func.nodes():
+        if n["k"] == "assign" and n["rhs"] is call and n["lhs"].get("k") == "ref" and n["lhs"].get("dk") == "local":
+            holder = n["lhs"]["d"]
+        if n["k"] == "decl":
+            for d in n["decls"]:
+                if d.get("init") is call:
+                    holder = d["d"]
+    if holder is None:
+        return None, None
+    for n in func.nodes():
+        if n["k"] == "assign" and n["lhs"].get("k") == "ref" and n["lhs"].get("d") == holder and n["rhs"] is not call and astq.const_value(n["rhs"]) is None:
+            return None, None      # another non-constant definition: the local is not (only) the call's result
+    for (a, s_, c, t) in cfg.cond_edges():
+        cn = func.node_by_id(c)
+        while cn is not None and cn.get("k") in ("cast", "paren"):
+            cn = cn["e"]
+        if cn is not None and cn.get("k") == "ref" and cn.get("d") == holder:
+            if t:
+                succ = s_
+            else:
+                fail = s_
+    return succ, fail
